@@ -90,6 +90,19 @@ func (e *Exec) mergeByIndex(vals []Value, idx *term.Term) Value {
 			out[k] = e.mergeByIndex(col, idx)
 		}
 		return &Struct{F: out}
+	case MapV:
+		ms := MapSel{Idx: idx}
+		for _, v := range vals {
+			mv, ok := v.(MapV)
+			if !ok || mv.M == nil || mv.M.TM == nil {
+				ms.Maps = nil
+				break
+			}
+			ms.Maps = append(ms.Maps, mv)
+		}
+		if ms.Maps != nil {
+			return ms
+		}
 	}
 	// non-scalar elements: all identical?
 	same := true
